@@ -39,6 +39,10 @@ def real_ids(methods):
             nm = k[1]
         else:
             ci, nm = 0, k
+        if '_v' not in nm:
+            # a name that is not a versioned implementation has been given an id of its own: reported, never a crash
+            ids[('unexpected', ci, nm)] = v
+            continue
         base, ver = nm.rsplit('_v', 1)
         ids[(int(ver), ci, 'ab'.index(base[1]) + 1)] = v
     try:
@@ -83,7 +87,7 @@ def run(workdir, tier, out):
         checked += 1
         if ro != mo or rn != mn:
             bad.append({'kind': 'ids-differ-from-model', 'old': p['old'], 'new': p['new'], 'real_old': {str(k): v for k, v in ro.items()}})
-        elif any(rn[m] != ro[m] for m in ro):
+        elif any(rn.get(m) != ro[m] for m in ro):
             bad.append({'kind': 'ids-not-stable', 'old': p['old'], 'new': p['new']})
     out('  [spec] MethodIds.tla: %d (old code, new code) pairs, IdsStable holds: %s; [spec->code] %d pairs built as real classes: %d disagree'
         % (len(pairs), st['completed'], checked, len(bad)))
